@@ -26,7 +26,7 @@ func TestReplay(t *testing.T) { h.Replay(t) }
 // ---------------------------------------------------------------------------
 // shared generators
 
-var subjectPieces = []string{"a", "b", "ab", "aa", "abc", "x", " ", "é", "日本", "ß", "\xff", "\xc3", "aXa", "0", "12", ".", "|", "*", "\n", "\t", "aab", "bba", "&", "\\"}
+var subjectPieces = []string{"a", "b", "ab", "aa", "abc", "x", " ", "é", "日本", "ß", "\xff", "\xc3", "\x80", "\xbf\x80", "\xe2\x82", "é\xa9", "aXa", "0", "12", ".", "|", "*", "\n", "\t", "aab", "bba", "&", "\\"}
 
 func genSubject(t *rapid.T, maxPieces int) string {
 	n := rapid.IntRange(0, maxPieces).Draw(t, "npieces")
@@ -366,8 +366,10 @@ func expand(repl, match string) (string, bool) {
 
 func runRegex(x *h.Ctx, c RegexCase) string {
 	s := string(c.S)
-	if c.Chars && !utf8.ValidString(s) {
-		x.Discard("invalid UTF-8 subject in character mode")
+	if c.Chars && !utf8.ValidString(s) && !isASCII(c.Re) {
+		// (a pattern that itself is not ASCII against a subject that is not valid UTF-8: what "a character" of the
+		// pattern matches is not defined; an ASCII pattern leaves no doubt, every stray byte is one character)
+		x.Discard("invalid UTF-8 subject with a non-ASCII pattern in character mode")
 		return ""
 	}
 	re, err := regexp.Compile("(?s:" + c.Re + ")")
